@@ -77,6 +77,7 @@ from halmos.logs import (
     error,
     logger,
     logger_unique,
+    reset_unique_logs,
     warn,
     warn_code,
 )
@@ -1676,6 +1677,10 @@ def run_tests(
     for funsig in funsigs:
         selector = ctx.method_identifiers[funsig]
         fun_info = FunctionInfo(ctx.name, funsig.split("(")[0], funsig, selector)
+
+        # warnings are deduplicated within a test, not across tests or contracts
+        reset_unique_logs()
+
         try:
             test_config = with_devdoc(args, funsig, ctx.contract_json)
 
